@@ -47,10 +47,10 @@ func procsFor(id int) int {
 }
 
 func planFor(tier string) tierPlan {
-	p := tierPlan{plainBatches: 192, plainRuns: 20, raceBatches: 192, raceRuns: 12, minimiseBudget: 90 * time.Second, batchTimeout: 10 * time.Minute}
+	p := tierPlan{plainBatches: 192, plainRuns: 20, raceBatches: 192, raceRuns: 12, minimiseBudget: 90 * time.Second, batchTimeout: 20 * time.Minute}
 	if tier == "thorough" {
 		// (sized for about an hour on 16 idle cores: 88 800 runs plus one O8 twin per batch)
-		p = tierPlan{plainBatches: 3600, plainRuns: 20, raceBatches: 1400, raceRuns: 12, minimiseBudget: 5 * time.Minute, batchTimeout: 20 * time.Minute}
+		p = tierPlan{plainBatches: 3600, plainRuns: 20, raceBatches: 1400, raceRuns: 12, minimiseBudget: 5 * time.Minute, batchTimeout: 45 * time.Minute}
 	}
 	if v := os.Getenv("VERIF_BUDGET_RUNS"); v != "" {
 		if n, err := strconv.Atoi(v); err == nil && n > 0 {
